@@ -81,6 +81,11 @@ CLAIMED = {
                     'theory, instrumented stacks around the core contract), of _spy_on, of the queries on spy-decorated '
                     'charts, and of current_state().',
             'note': "Trusted: core contracts as seen by the wrappers (proved by C01-C03/C23; the log summary of a step by composition of the _spy_on contract, C02's offer protocol and the core frame), deque/list contracts, functools.wraps; user code does not touch instrumentation fields.", 'technique': TECH},
+    'C24': {'text': 'start_at/init and dispatch verified a second time under the weakened handler contract (an initial '
+                    'transition may name any state, an offer may return None): every loop has a variant (DMAX - depth for the '
+                    'outer init loops), the monitor obligations still hold at every call (no wrong state is entered before the '
+                    'failure), a normal return implies nothing was malformed, the only exception is HsmTopologyException.',
+            'note': CORE_NOTE + ' The chart is finite (a bound on depth exists).', 'technique': TECH},
     'C25': {'text': 'the registry as an insertion-ordered map with an index; class invariant (index and key sequence agree, '
                     'number == position, ten built-ins first) established by __init__ and preserved by append, __getattr__ '
                     'and Event.__init__, which bind a new name to len+1 and never change a binding; name_for_signal inverts '
